@@ -25,6 +25,7 @@ import CelloGen.Exn
 import CelloProofs.Lemmas.ExnWalk
 import CelloProofs.Lemmas.ExnDomain
 import CelloProofs.Lemmas.ExnRefine
+import CelloProofs.Lemmas.ExnWorld
 
 namespace Cello.Exn
 
@@ -45,14 +46,15 @@ theorem C07_machine_refines_reference (maxDepth : Nat) (p : Prog) :
       Agrees s (run true maxDepth p x s) (eval p x) := by
   intro x s ha hn hx hd
   exact runWith_refines catchDecision maxDepth p x s ha hn hx hd
-    (fun f _ obj hobj => catchDecision_membership f obj hobj)
+    (fun f hf obj hobj => catchDecision_membership f obj hobj (inDomain_filtersOf p hd f hf))
 
-/-- **The repair a0ef2da, as a statement**: `exception_catch` decides every filter by membership of the pending
-    object (empty filter = catch all) — also a filter that names one object twice — and its walk always ends. -/
-theorem C07_filter_is_membership (f : List Nat) (obj : Nat) (hobj : obj ≠ 0) :
+/-- **The repair a0ef2da, as a statement**: `exception_catch` decides every filter of non-NULL entries by membership
+    of the pending object (empty filter = catch all) — also a filter that names one object twice — and its walk always
+    ends (whatever the entries). A NULL entry makes the comparison itself raise ValueError (`walkIdx`: `.nullCmp`). -/
+theorem C07_filter_is_membership (f : List Nat) (obj : Nat) (hobj : obj ≠ 0) (h0 : 0 ∉ f) :
     catchDecision f obj = (if fmatch f obj then .matched else .exhausted) ∧
     (∀ o, catchDecision f o ≠ .hang) :=
-  ⟨catchDecision_membership f obj hobj, fun o => catchDecision_ne_hang f o⟩
+  ⟨catchDecision_membership f obj hobj h0, fun o => catchDecision_ne_hang f o⟩
 
 /-- **C07 for the code as it is in /repo now**: the same statement about `runNow`, the machine selected by the three
     source-derived parameters (`exception_catch` walks its filter with foreach or by index; consumes or not;
@@ -74,6 +76,26 @@ theorem C07_macros_as_modelled :
     CelloGen.Exn.catchWalksFilterWithForeachEq = false ∧
     CelloGen.Exn.catchWalksFilterByIndex = true ∧
     CelloGen.Exn.tupleGetByIndex = true := ⟨rfl, rfl, rfl, rfl, rfl, rfl, rfl⟩
+
+/-- the comparison `exception_catch` performs is the one `cmpObj` models: `eq` is `cmp … is 0`, `cmp` calls the `Cmp`
+    instance of the filter entry, and `Type_Cmp` / `String_Cmp` / `Int_Cmp` / `cast` read as they did when the model was
+    written (src/Cmp.c, Type.c, String.c, Num.c now) -/
+theorem C07_comparison_as_modelled :
+    CelloGen.Exn.eqIsCmpOfFirstArgument = true ∧
+    CelloGen.Exn.typeCmp = CelloGen.Exn.typeCmpModelled ∧
+    CelloGen.Exn.stringCmp = CelloGen.Exn.stringCmpModelled ∧
+    CelloGen.Exn.intCmp = CelloGen.Exn.intCmpModelled ∧
+    CelloGen.Exn.castRaisesValueError = true := ⟨rfl, rfl, rfl, rfl, rfl⟩
+
+/-- **KF-C07-accessors-undefined.** `exception_object()` and `exception_message()` — "To get the current exception
+    object or message use the `exception_message` or `exception_object` methods" (src/Exception.c, documentation) — are
+    declared in include/Cello.h and defined in no source file: a program that calls them does not link. The thrown object
+    is observable in a handler through the bound variable only (what the machine's `Ev.handler` records), the thrown
+    message through nothing. (Flags read from the source by the translator; when the two definitions are added this
+    statement fails and harness op `A` starts checking them against the thrown object and message.) -/
+theorem C07_exception_accessors_undefined :
+    CelloGen.Exn.exceptionObjectDeclared = true ∧ CelloGen.Exn.exceptionMessageDeclared = true ∧
+    CelloGen.Exn.exceptionObjectDefined = false ∧ CelloGen.Exn.exceptionMessageDefined = false := ⟨rfl, rfl, rfl, rfl⟩
 
 /-- **Top level**: from the initial state, a program in the domain whose nesting fits produces exactly the reference
     trace, ends with depth 0, and ends `normal` iff no exception escapes; an escaping exception terminates the program
@@ -365,6 +387,133 @@ theorem C07_bad_message_as_format_error (p : Prog) (x : Nat) (s : St) (ha : s.ac
   have := C07_current_source (normalizeMsg p) x s ha (by rw [nest_normalizeMsg]; exact hn) hx hd
   have he : runNow (normalizeMsg p) x s = runNow p x s := run_normalizeMsg_eq _ _ p x s
   rwa [he] at this
+
+/-! ### exception objects of any type (second-round audit, item 1) -/
+
+/-- **C07 for exception objects of any type.** `w` says what lives at each address: Type objects, Strings, Ints.
+    The machine `runW w` compares a filter entry with the pending object the way `exception_catch` does — `eq`, i.e. the
+    `Cmp` instance of the ENTRY (`cmpObj`: Type_Cmp casts the object, String_Cmp takes its `c_str`, Int_Cmp its `c_int`).
+    The reference `evalW w` lets a handler run iff the filter is empty or lists an object of equal value (`specEq`).
+    For every program in the object domain on whose reference run no filter walk reaches an entry that cannot be
+    compared with the arriving exception before an entry that lists it (`noClash w p x`, decidable — exactly the
+    complement of the territory of KF-C07-filter-eq-raises), the machine produces the reference trace, binds the thrown
+    object, restores the depth, and ends normally / jumps to the innermost enclosing buffer / ends fatally as the
+    reference says. Heterogeneous programs are covered: a Type entry and a thrown String may occur in one program as
+    long as that String does not arrive at that entry first (example below). -/
+theorem C07_any_objects (w : World) (maxDepth : Nat) (p : Prog) :
+    ∀ (x : Nat) (s : St), s.active = false → s.depth + nest p ≤ maxDepth →
+      x ≠ 0 → inDomain p = true → noClash w p x = true →
+      Agrees s (runW w true maxDepth p x s) (evalW w p x) := by
+  intro x s ha hn hx hd hc
+  exact runWith_refines_along (catchDecisionW w) (fmatchW w) maxDepth p x s ha hn hx hd
+    (noClash_decidesAlong w p x hx hd hc)
+
+/-- … for the code as it is in /repo now (`runNowW w`: the machine the translator's flags select — the one the driver
+    runs with the harness's objects, `harnessWorld`) -/
+theorem C07_current_source_any_objects (w : World) (p : Prog) (x : Nat) (s : St) (ha : s.active = false)
+    (hn : s.depth + nest p ≤ CelloGen.Exn.maxDepth)
+    (hx : x ≠ 0) (hd : inDomain p = true) (hc : noClash w p x = true) :
+    Agrees s (runNowW w p x s) (evalW w p x) :=
+  C07_any_objects w CelloGen.Exn.maxDepth p x s ha hn hx hd hc
+
+/-- **`C07_machine_refines_reference` is the instance "every object is a Type object with a name of its own"** — the
+    restriction is a theorem, not an assumption of the representation: in that world the machine is `run`, the
+    reference is `eval`, and no program has a clash. -/
+theorem C07_type_objects_instance :
+    run = runW idWorld ∧ (∀ p x, evalW idWorld p x = eval p x) ∧ (∀ p x, noClash idWorld p x = true) ∧
+    runNow = runNowW idWorld :=
+  ⟨run_eq_runW_idWorld, evalW_idWorld, fun p x => noClash_idWorld p x, by
+    funext p x s
+    simp [runNow, runNowW, runCfg, runCfgW, catchDecision_eq_catchDecisionW]⟩
+
+/-- the filter walk of the code decides by "some entry lists the object" exactly outside the clash territory, and
+    inside it the comparison raises ValueError (cast to Type) or ClassError (no `C_Str` / `C_Int`); it always ends -/
+theorem C07_filter_walk_any_objects (w : World) (f : List Nat) (obj : Nat) (hobj : obj ≠ 0) (h0 : 0 ∉ f) :
+    (clash w obj f = false → catchDecisionW w f obj = if fmatchW w f obj then .matched else .exhausted) ∧
+    (clash w obj f = true →
+      catchDecisionW w f obj = .cmpRaises valueErr ∨ catchDecisionW w f obj = .cmpRaises classErr) ∧
+    (∀ o, catchDecisionW w f o ≠ .hang) :=
+  ⟨catchDecisionW_noclash w f obj hobj h0, catchDecisionW_clash w f obj hobj h0,
+   fun o => catchDecisionW_ne_hang w f o⟩
+
+/-- no undefined jump and no hang with objects of any type either (no hypothesis on the program) -/
+theorem C07_no_undefined_jump_any_objects (w : World) (maxDepth : Nat) (p : Prog) :
+    ∀ (x : Nat) (s : St), s.active = false → Safe s (runW w true maxDepth p x s) :=
+  runWith_safe (catchDecisionW w) (catchDecisionW_ne_hang w) maxDepth p
+
+/-- **KF-C07-filter-eq-raises (refuted outside `noClash`).** With the harness's objects (`harnessWorld`: 1 = TypeError,
+    2 = ValueError, 7 = ClassError, 8 = a String "A", 12 = an Int 5):
+    `try { try { throw(A) } catch (e in TypeError) {…} } catch (e) { H }` — the reference passes the String on to the
+    catch-all, which binds it; the machine (= the code, reproduced) binds ValueError: `Type_Cmp` casts the pending
+    object to Type inside `exception_catch`, the thrown String reaches no handler. Mirror case
+    `catch (e in Int 5)` with `throw(TypeError)`: `Int_Cmp` takes `c_int(TypeError)`, the catch-all binds ClassError.
+    Uncaught: the diagnostic names ValueError, not the thrown object. -/
+theorem C07_mixed_type_filter_refuted :
+    let w := harnessWorld
+    let bad : Prog := .tryCatch (.tryCatch (.throw 8) [1] (.stmt 1)) [] (.stmt 2)
+    let bad2 : Prog := .tryCatch (.tryCatch (.throw 1) [12] (.stmt 1)) [] (.stmt 2)
+    let bad3 : Prog := .tryCatch (.throw 8) [9, 1] (.stmt 1)
+    inDomain bad = true ∧ noClash w bad 1 = false ∧
+    evalW w bad 1 = ([.handler 8, .stmt 2], none) ∧
+    runNowW w bad 1 St.init = (⟨0, false, valueErr⟩, [.handler valueErr, .stmt 2], .normal) ∧
+    inDomain bad2 = true ∧ noClash w bad2 1 = false ∧
+    evalW w bad2 1 = ([.handler 1, .stmt 2], none) ∧
+    runNowW w bad2 1 St.init = (⟨0, false, classErr⟩, [.handler classErr, .stmt 2], .normal) ∧
+    noClash w bad3 1 = false ∧ evalW w bad3 1 = ([], some 8) ∧
+    runNowW w bad3 1 St.init = (⟨0, true, valueErr⟩, [], .fatal) := by decide
+
+/-- … in general: whenever the exception `e` that the body raises meets a clash in the filter, the block neither
+    handles `e` nor passes `e` on: after exactly the body's events it leaves with ValueError or ClassError recorded in
+    place of `e` (jump to the enclosing buffer, or fatal at depth 0) — on the whole territory of the finding. -/
+theorem C07_clash_replaces_exception (w : World) (maxDepth : Nat) (b h : Prog) (f : List Nat) (x e : Nat) (s : St)
+    (hn : s.depth + nest b + 1 ≤ maxDepth)
+    (hx : x ≠ 0) (hd : inDomain (.tryCatch b f h) = true) (hc : noClash w b x = true)
+    (hb : (evalW w b x).2 = some e) (hcl : clash w e f = true) :
+    let r := runW w true maxDepth (.tryCatch b f h) x s
+    r.2.1 = (evalW w b x).1 ∧ (r.1.obj = valueErr ∨ r.1.obj = classErr) ∧ r.1.depth = s.depth ∧
+      r.2.2 = (if s.depth ≥ 1 then .jump (s.depth - 1) else .fatal) := by
+  have hd' := hd
+  simp only [inDomain, Bool.and_eq_true] at hd'
+  have h0 : 0 ∉ f := by simpa using hd'.1.2
+  have hlt : s.depth ≠ maxDepth := by omega
+  have he0 : e ≠ 0 := evalM_exc_ne_zero (fmatchW w) b x e hx hd'.1.1 hb
+  have hb' := C07_any_objects w maxDepth b x { s with depth := s.depth + 1, active := false } rfl
+    (by simp; omega) hx hd'.1.1 hc
+  rcases hev : evalW w b x with ⟨t, r⟩
+  rw [hev] at hb; simp only at hb; subst hb
+  rw [hev] at hb'; simp only [Agrees] at hb'
+  simp only [runW, runWith, hlt, if_false] at hb' ⊢
+  rcases hr : runWith (catchDecisionW w) true maxDepth b x { s with depth := s.depth + 1, active := false } with ⟨s2, t', g⟩
+  rw [hr] at hb'; simp only at hb'
+  obtain ⟨h1, h2, h3, h4⟩ := hb'
+  simp only [Nat.le_add_left, ge_iff_le, if_true, Nat.add_sub_cancel] at h4
+  subst h1 h4 h2
+  simp only [if_true]
+  rcases catchDecisionW_clash w f s2.obj he0 h0 hcl with hw | hw
+  · rw [catchPhase_raises (catchDecisionW w) true _ f { s2 with active := true } t' valueErr s.depth h3 rfl hw]
+    simp
+  · rw [catchPhase_raises (catchDecisionW w) true _ f { s2 with active := true } t' classErr s.depth h3 rfl hw]
+    simp
+
+/-- Non-vacuity of `C07_any_objects` (harness objects: 8, 10 = two distinct Strings "A", 9 = String "B", 11 = String
+    "TypeError", 12, 14 = two distinct Ints 5, 13 = Int 7): value equality binds the thrown object, not the listed one;
+    a String entry lists a Type by its name; Ints among Ints; and a heterogeneous program — a thrown String under a
+    block with a Type filter — is inside the hypothesis because an inner catch-all handles it first. -/
+example :
+    let w := harnessWorld
+    let p : Prog := .seq
+      (.tryCatch (.tryCatch (.throw 10) [9] (.stmt 1)) [9, 8] (.seq (.stmt 2) (.tryCatch .rethrow [8] (.stmt 0))))
+      (.seq (.tryCatch (.throw 1) [9, 11] (.stmt 3))
+        (.seq (.tryCatch (.tryCatch (.throw 14) [13] (.stmt 4)) [12] (.stmt 5))
+          (.tryCatch (.tryCatch (.throw 8) [] (.stmt 6)) [1, 2] (.stmt 7))))
+    inDomain p = true ∧ noClash w p 1 = true ∧ allTypes w p = false ∧
+    runNowW w p 1 St.init = (⟨0, false, 8⟩,
+      [.handler 10, .stmt 2, .handler 10, .stmt 0, .handler 1, .stmt 3, .handler 14, .stmt 5, .handler 8, .stmt 6],
+      .normal) ∧
+    evalW w p 1 =
+      ([.handler 10, .stmt 2, .handler 10, .stmt 0, .handler 1, .stmt 3, .handler 14, .stmt 5, .handler 8, .stmt 6],
+       none) := by
+  decide
 
 /-- Non-vacuity: a concrete nested program — throw from a called function, filters that name objects repeatedly, a
     handler that rethrows the bound object after an inner block overwrote the record's object, a throw from a handler,
